@@ -88,6 +88,20 @@ func vpH_C03_repeated_members() {
 	vpReach("end")
 }
 
+// every field populated at once
+func vpH_C03_all() {
+	ti := vpChoice(len(vpTypeNames))
+	x := vpPopulated(ti)
+	b, err := GobEncode(x)
+	vpAssert("all/encode/"+vpTypeNames[ti], err == nil && len(b) > 0)
+	y, err := GobDecode(b)
+	vpAssert("all/decode/"+vpTypeNames[ti], err == nil && y != nil)
+	if y != nil {
+		vpDiffItems("all/roundtrip/"+vpTypeNames[ti], x, y, nil)
+	}
+	vpReach("end")
+}
+
 // instants keep nanoseconds and denote the same moment; negative numbers and durations survive
 func vpH_C03_special() {
 	o := &Object{ID: vpMkIRI('i'), Type: NoteType}
